@@ -1,4 +1,5 @@
 import KoordVerif.Model.C11
+import KoordVerif.Model.C11Decode
 import KoordVerif.Proofs.C11Loop
 import KoordVerif.Proofs.C11Order
 import KoordVerif.Proofs.C11Sort
@@ -324,6 +325,133 @@ example :
         used := 1000, request := 1, batchReq := 0 }
     (selectPrio 5999 false [mk 0 5500 1 .absent, mk 1 9500 0 .absent, mk 2 5500 0 .others, mk 3 5600 (-1) .lists]).map (·.pod.id)
       = [3, 0] := by decide
+
+/-! ## Part D — decoding of labels / annotations (Model/C11Decode.lean) -/
+
+/-! ### D.1 eviction priority: `strconv.ParseInt(value, 10, 32)` — a decimal literal inside the int32 range
+    reads as itself, everything else (missing, malformed, OUT OF RANGE) as the implicit priority 0; it never
+    wraps around. -/
+theorem eviction_priority_decoding (t : NumText) :
+    evictionPriority t =
+      match t with
+      | .literal v => if -2147483648 ≤ v ∧ v ≤ 2147483647 then v else 0
+      | _ => 0 := by
+  cases t with
+  | absent => rfl
+  | malformed => rfl
+  | literal v =>
+    simp only [evictionPriority, parseBits]
+    have : ((2 : Int) ^ (32 - 1)) = 2147483648 := by decide
+    rw [this]
+    by_cases h : -2147483648 ≤ v ∧ v < 2147483648
+    · have h' : -2147483648 ≤ v ∧ v ≤ 2147483647 := ⟨h.1, by omega⟩
+      simp [h, h']
+    · have h' : ¬ (-2147483648 ≤ v ∧ v ≤ 2147483647) := fun hh => h ⟨hh.1, by omega⟩
+      simp [h, h']
+
+theorem eviction_priority_out_of_range_is_zero (v : Int) (h : v < -2147483648 ∨ 2147483647 < v) :
+    evictionPriority (.literal v) = 0 := by
+  rw [eviction_priority_decoding]
+  have : ¬ (-2147483648 ≤ v ∧ v ≤ 2147483647) := by omega
+  simp [this]
+
+/-! ### D.2 priority with default: a non-zero spec.priority is used as is; nil AND the explicit 0 read as the
+    default of the pod's koordinator priority class (label, else priority range, else QoS). -/
+theorem priority_default_by_class (spec : Option Int) (cls : PCls) :
+    priorityWithDefault spec cls =
+      match spec with
+      | some p => if p = 0 then defaultPrio cls else p
+      | none => defaultPrio cls := by
+  cases spec with
+  | none => rfl
+  | some p => by_cases h : p = 0 <;> simp [priorityWithDefault, h]
+
+theorem explicit_zero_priority_reads_as_class_default (cls : PCls) :
+    priorityWithDefault (some 0) cls = defaultPrio cls ∧ priorityWithDefault none cls = defaultPrio cls := by
+  constructor <;> rfl
+
+/-- a priority-class label that is present decides alone; without it the priority range, then the QoS
+    (label, else the Kubernetes QoS) decides. -/
+theorem class_resolution (clsLabel : Nat) (spec : Option Int) (qosLabel kubeQoS : Nat) :
+    clsWithDefault clsLabel spec qosLabel kubeQoS =
+      (let raw := if clsLabel ≠ 0 then clsByName clsLabel else (spec.map clsByPriority).getD .none
+       if raw ≠ .none then raw
+       else clsByQoS (if qosByLabel qosLabel ≠ .none then qosByLabel qosLabel else qosByKube kubeQoS)) := by
+  unfold clsWithDefault clsRaw qosWithDefault
+  cases spec <;> simp
+
+/-! ### D.3 policy opt-out: the pod stays evictable by the evaluated policy iff the annotation is absent, or
+    it is a JSON array of strings (nulls allowed) that names the policy.  `null`, `[]`, an array with any
+    non-string element (even if it also names the policy), any other JSON value and any non-JSON text all
+    opt the pod OUT. -/
+theorem policy_allowed_iff_shape (top : Nat) (elems : List Nat) :
+    policyAllowed (policyOf top elems) = true ↔
+      (top = 0 ∨ (top = 3 ∧ (∀ x ∈ elems, x < 3) ∧ 0 ∈ elems)) := by
+  unfold policyOf
+  match top with
+  | 0 => simp [policyAllowed]
+  | 1 => simp [policyAllowed]
+  | 2 => simp [policyAllowed]
+  | 3 =>
+    by_cases h1 : elems.any (fun x => decide (x ≥ 3)) = true
+    · simp only [h1, if_true, policyAllowed]
+      simp at h1
+      obtain ⟨x, hx, hx3⟩ := h1
+      constructor
+      · intro h; cases h
+      · rintro (h | ⟨_, h, _⟩)
+        · cases h
+        · have := h x hx; omega
+    · have h1' : ∀ x ∈ elems, x < 3 := by
+        intro x hx
+        simp at h1
+        exact h1 x hx
+      by_cases h2 : elems.contains 0 = true
+      · simp only [h1, h2, if_true, policyAllowed]
+        simp at h2
+        simp [h2]
+        exact h1'
+      · simp only [h1, h2, policyAllowed]
+        simp at h2
+        simp [h2]
+  | n + 4 => simp [policyAllowed]
+
+/-! ### D.4 victims_eligible on the raw pod: a pod is put on a priority-based victim list iff it is Pending or
+    Running, has not opted out (D.3), its defaulted priority (D.2) is not above the threshold, its
+    eviction-enabled label is exactly "true", and it has a usage metric. -/
+theorem raw_prio_victim_iff (threshold : Int) (rp : RawPod) :
+    (prioInfo? threshold (decodePod rp)).isSome = true ↔
+      (rp.phase ≤ 1 ∧ (rp.policyTop = 0 ∨ (rp.policyTop = 3 ∧ (∀ x ∈ rp.policyElems, x < 3) ∧ 0 ∈ rp.policyElems)) ∧
+       priorityWithDefault rp.specPrio rp.cls ≤ threshold ∧ rp.evictLabel = 1 ∧ rp.hasMetric = true) := by
+  rw [← policy_allowed_iff_shape]
+  unfold prioInfo? decodePod
+  by_cases h1 : rp.phase ≤ 1 <;> by_cases h2 : policyAllowed (policyOf rp.policyTop rp.policyElems) = true <;>
+    by_cases h3 : priorityWithDefault rp.specPrio rp.cls > threshold <;> by_cases h4 : rp.evictLabel = 1 <;>
+    by_cases h5 : rp.hasMetric = true <;> simp [h1, h2, h3, h4, h5] <;> omega
+
+/-- the sort keys of a listed raw pod are the decoded ones (D.1, D.2; label priority falls back to the
+    defaulted priority when missing, malformed or outside int64). -/
+theorem raw_prio_victim_keys (threshold : Int) (rp : RawPod) (i : Info)
+    (h : prioInfo? threshold (decodePod rp) = some i) :
+    i.evictPrio = evictionPriority rp.evictPrio ∧ i.prio = priorityWithDefault rp.specPrio rp.cls ∧
+    i.labelPrio = (priorityLabel rp.prioLabel).getD (priorityWithDefault rp.specPrio rp.cls) := by
+  obtain ⟨pr, ⟨he, _⟩, hi⟩ := (prioInfo_some_iff threshold (decodePod rp) i).mp h
+  have : pr = priorityWithDefault rp.specPrio rp.cls := by
+    simp [decodePod] at he; exact he.symm
+  subst hi
+  simp [decodePod, this]
+
+/-- non-vacuity of Part D: the seeded shapes.  Pod 0: eviction priority "3000000000" (out of int32) ranks as 0,
+    not as a wrapped negative; pod 1: explicit spec.priority 0 with class label koord-prod is 9500 > threshold
+    and is NOT listed; pod 2: `["CPUEvict",1]` names the policy but is not a string list: opted out. -/
+example :
+    let mk (id : Nat) (spec : Option Int) (cls : Nat) (ep : NumText) (top : Nat) (el : List Nat) : RawPod :=
+      { id := id, name := id, qosLabel := 0, kubeQoS := 1, phase := 1, specPrio := spec, clsLabel := cls,
+        evictLabel := 1, evictPrio := ep, prioLabel := .absent, policyTop := top, policyElems := el,
+        hasMetric := true, used := 1000, reqNative := 1, reqMid := 0, reqBatch := 0, batchReq := 0 }
+    (selectPrio 5999 false ([mk 0 (some 5500) 0 (.literal 3000000000) 0 [], mk 1 (some 0) 1 .absent 0 [],
+        mk 2 (some 5500) 0 .absent 3 [0, 3], mk 3 (some 5500) 0 (.literal (-1)) 3 [2, 0]].map decodePod)).map
+      (fun i => (i.pod.id, i.evictPrio)) = [(3, -1), (0, 0)] := by decide
 
 /-! ## Part C — several rounds against the real executor (Evictor + DefaultEvictionExecutor)
 
